@@ -57,6 +57,9 @@ Definition a_buf_size : act := fun g => (g, VZ (Z.of_nat (List.length (g_buf g))
 
 Section Gpb.
   Variables (flips sfuel : nat) (cap : Z) (cnt : bool).
+  (** hook executed by synchronize (lock held) before the first and after the second flip_and_wait:
+      [Ret true] for general_buffered, force_membar_all_threads for signal_buffered (LV.Model.RcuSignal) *)
+  Variable mb : prog bool.
 
   (** the test [m_Buffer.size() >= capacity()] after a successful push *)
   Definition size_reached {R} (k : bool -> prog R) : prog R :=
@@ -80,8 +83,13 @@ Section Gpb.
           bind (lock_outer sfuel) (fun ok =>
             if ok then
               Act a_epoch_faa (fun n =>
-                bind (flips_and_wait flips sfuel) (fun ok' =>
-                  if ok' then bind unlock (fun _ => clear_buffer f (vz n)) else Ret false))
+                bind mb (fun ok0 =>
+                  if ok0 then
+                    bind (flips_and_wait flips sfuel) (fun ok' =>
+                      if ok' then bind mb (fun ok1 =>
+                        if ok1 then bind unlock (fun _ => clear_buffer f (vz n)) else Ret false)
+                      else Ret false)
+                  else Ret false))
             else Ret false))
     end
   with clear_buffer (rf : nat) (n : Z) : prog bool :=
@@ -164,11 +172,16 @@ Fixpoint ceil2_from (fuel : nat) (c : nat) (n : nat) : nat :=
 Definition buffer_cells (cap : Z) : nat := ceil2_from 64 2 (Z.to_nat cap).
 
 Definition binit (cap : Z) (cnt : bool) : G :=
-  mkG 1 [] O (fun _ => 0) (fun _ => 0) false 0 0 0 [] (buffer_cells cap) cap cnt.
+  mkG 1 [] O (fun _ => 0) (fun _ => 0) false 0 0 0 [] (buffer_cells cap) cap cnt (fun _ => false) None false false O.
+
+(** client threads followed by [extra] threads (pseudo-threads of the flavour: none for general_buffered) *)
+Definition xinit_cfg (flips sfuel rf : nat) (cap : Z) (cnt : bool) (mb : prog bool) (extra : list (Conc.thread G V ev))
+  (ths : list (list bop)) : Conc.config G V ev :=
+  Conc.Cfg (binit cap cnt)
+           (map (fun p => bthread_prog flips sfuel cap cnt mb rf (fst p) (snd p)) (number O ths) ++ extra) [].
 
 Definition binit_cfg (flips sfuel rf : nat) (cap : Z) (cnt : bool) (ths : list (list bop)) : Conc.config G V ev :=
-  Conc.Cfg (binit cap cnt)
-           (map (fun p => bthread_prog flips sfuel cap cnt rf (fst p) (snd p)) (number O ths)) [].
+  xinit_cfg flips sfuel rf cap cnt (Ret true) [] ths.
 
 (** Destruct: clear_buffer( max ) disposes whatever is left, in FIFO order (runs after all threads, unscheduled) *)
 Definition destruct_events (g : G) : list ev := map (fun x => EvCli "dispose" [fst x]) (g_buf g).
